@@ -100,8 +100,9 @@ def layer_pattern_strategy(spec_layers_names):
     names = list(spec_layers_names)
     if not names:
         return st.just([])
-    pat = st.sampled_from(names).map(lambda n: n + '$')
-    neg = st.sampled_from(names).map(lambda n: '!' + n + '$')
+    # (layer names may contain regular-expression metacharacters: a pattern that *names* a layer escapes them)
+    pat = st.sampled_from(names).map(lambda n: re.escape(n) + '$')
+    neg = st.sampled_from(names).map(lambda n: '!' + re.escape(n) + '$')
     return st.lists(st.one_of(pat, pat, neg), max_size=3)
 
 
